@@ -66,9 +66,11 @@ Clause ==
           (IF e.exc THEN "step:result"
            ELSE IF phase # "term" THEN "step:result-phase"
            ELSE IF ~e.nan /\ (e.x # x \/ e.ok # succ) THEN "step:result-mismatch"
-           ELSE IF ~e.nan /\ e.ok /\ ~SaneOK(e.x, e.sane) THEN "sane-flag"
            ELSE IF e.nan THEN "genuine:nan"
-           ELSE "genuine:" \o GenuineClause(e.x))
+           \* a judged result is named by the Genuine clause it misses; the sane flag by itself is what
+           \* remains for an unjudged (stub) formulation
+           ELSE IF e.judged /\ e.ok /\ e.sane /\ ~Genuine(e.x) THEN "genuine:" \o GenuineClause(e.x)
+           ELSE "sane-flag")
       ELSE IF e.ev = "bracket" THEN
           (IF phase # "done" THEN "step:bracket"
            ELSE IF e.raised THEN "bracket-raises"
